@@ -99,6 +99,29 @@ def ext_value_ok(I, st, base, expr, cls, nib_aff, at):
     return bool(ok), 2
 
 
+def value_by_bits(I, st, aff):
+    """numeric value of `symbol + constant` when every known bit of the symbol comes from bytes that are pinned on this
+    path (the byte-swapped two-byte extension, whose relation to its bytes is kept as bit provenance)"""
+    sg = aff.single()
+    if sg is None or sg[1] != 1:
+        return None
+    bits = bitprov.resolve_bits(I, st, IntV(Aff.sym(sg[0]), (16, False)), 16)
+    if not bits:
+        return None
+    v = 0
+    for i, b in enumerate(bits):
+        if b in (0, 1):
+            v |= b << i
+        elif isinstance(b, tuple):
+            lo, hi = st.lo_hi(b[1])
+            if lo != hi:
+                return None
+            v |= ((lo >> b[2]) & 1) << i
+        else:
+            return None
+    return v + sg[2]
+
+
 def check(env, rep, tier):
     include(rep, env, tier, "c01", ("C01.2", "C01.4", "C01.6"), "C02.3", "'re-serialising reproduces the input': the encoder emits the RFC option headers and the payload behind its marker")
     configs = ["default"] if tier == "quick" else ["default", "nodefault", "udp"]
@@ -140,6 +163,14 @@ def check(env, rep, tier):
                            sample={"rule": "C02.1", "wildcard_bytes": len(vals)})
                     covered |= vals
             rep.ob("C02.1", "all-256", covered == set(range(256)), "the code byte table does not cover all 256 values (%d covered)" % len(covered))
+        # ---------------------------------------------------------- C02.5 "no two different accepted datagrams parse to
+        #      equal messages": equality of messages is the derived field-by-field one (not e.g. equality of a limited
+        #      or lossy re-serialisation)
+        for tys in ("packet::Packet", "header::Header", "header::MessageClass"):
+            ims = [im for im in prog.impls if im.get("trait") == "core::cmp::PartialEq" and prog.types[im["self_ty"]]["s"] == tys]
+            if ims:
+                rep.ob("C02.5", "eq-derived|" + tys, all(im.get("derived") for im in ims),
+                       "PartialEq for %s is hand-written: two parsed messages can compare equal without having the same fields" % tys)
         # ---------------------------------------------------------- C02.2
         body = find_body(prog, ENTRY)
         if body is None:
@@ -199,6 +230,57 @@ def check(env, rep, tier):
                        "decoder: for a %s delta and a %s length the option number / value are not formed from the bytes RFC 7252 section 3.1 prescribes "
                        "(number = running number + delta; value = copy of the bytes after the extension bytes)" % (dcls, lcls), site,
                        sample={"rule": "C02.2", "delta_class": dcls, "length_class": lcls, "insertions_checked": len(recs), "ok": good})
+        # ---- the largest option number is accepted: a first option with the two-byte delta extension FE F2
+        #      (65266 + 269 = 65535) and an inline length reaches the insertion with exactly that delta
+        I = new_interp(prog)
+        I.no_join_bodies.add(body["id"])
+        I.no_join_prefixes = ("packet::",)
+        inj = ClassInjector("ext16", "inline")
+        I.value_hooks.append(inj)
+
+        def pin_ext(I_, ctx, st_, v):
+            nd = st_.ghost.get(("nib", 4))
+            if nd is None or not isinstance(v, IntV) or st_.dead:
+                return
+            sg = v.aff.single()
+            inf = I_.syminfo.get(sg[0]) if sg and sg[1] == 1 and sg[2] == 0 else None
+            if inf and inf[0] == "elem" and inf[1] == buf_max.base:
+                if st_.entails_eq(inf[2], nd[2] + 1):
+                    st_.add_eq(v.aff, Aff.const((65535 - FR["ext16_bias"]) >> 8))
+                elif st_.entails_eq(inf[2], nd[2] + 2):
+                    st_.add_eq(v.aff, Aff.const((65535 - FR["ext16_bias"]) & 0xFF))
+            elif inf and sg and v.ty is not None and v.ty[0] >= 16 and st_.lo_hi(sg[0])[0] != st_.lo_hi(sg[0])[1]:
+                # a value assembled from the pinned bytes by shifts / byte swaps: pin it, too (so that the range
+                # check that follows is decided on this path)
+                val = value_by_bits(I_, st_, v.aff)
+                if val is not None and val == 65535 - FR["ext16_bias"]:
+                    st_.add_eq(v.aff, Aff.const(val))
+        I.value_hooks.append(pin_ext)
+        st = State()
+        buf_max = I.mat(st, prog.ty(body["locals"][1]["ty"]), "buf")
+        recs_max = []
+
+        def hook_max(I_, s, call, cbody):
+            if call.path.endswith("BTreeMap::<K, V, A>::entry") and isinstance(call.args[1], IntV):
+                s.ghost["key"] = call.args[1].aff
+            elif call.path.endswith("LinkedList::<T, A>::push_back"):
+                snap = [v for k, v in s.cells.items() if isinstance(k, tuple) and k and k[0] == "snap"]
+                recs_max.append((s.copy(), s.ghost.get("key"), snap))
+        I.call_hooks.append(hook_max)
+        I, res = run(prog, body, args=[buf_max], st=st, I=I)
+        ok_max = False
+        for s, key, snap in recs_max:
+            if key is None or infeasible(s):
+                continue
+            heads = [f.aff for sv in snap if isinstance(sv, StructV) for f in sv.fields if isinstance(f, IntV)]
+            for h in heads + [Aff.const(0)]:
+                d = key - h
+                if s.entails_eq(d, Aff.const(65535)) or value_by_bits(I, s, d) == 65535:
+                    ok_max = True
+        rep.ob("C02.2", "option|max-number-accepted", ok_max and inj.count > 0,
+               "decoder: an option whose delta is the two-byte extension FE F2 (+269 = 65535, the largest option number) never reaches the "
+               "insertion: a legal option number is rejected (an off-by-one in the 16-bit range check)", site,
+               sample={"rule": "C02.2", "insertions_seen": len(recs_max)})
         # ---- token and payload provenance (no injection)
         I = new_interp(prog)
         I.no_join_bodies.add(body["id"])
